@@ -27,6 +27,11 @@ THEOREMS = ['Vakt.C19.never_dropped', 'Vakt.C19.irreversible_untouched_reported'
             'Vakt.C19.m4down_spec', 'Vakt.C19.m2_rule_roundtrip', 'Vakt.C19.m4up_preserves_policy', 'Vakt.C19.m4down_m4up',
             'Vakt.C19.m4up_adds_compiled', 'Vakt.C19.m4up_failure',
             'Vakt.C19.probes_ok']
+# obligations over what was translated from /repo/vakt/storage/mongo.py in this run: MongoMigration._each_doc - a document whose processor
+# raises is reported and not replaced, every other one is replaced under its uid by the processor's result (lean/Gen/EquivMongoMig.lean)
+EXTRA_BUILD = ['+Gen.EquivMongoMig']
+GEN_IMPORTS = ['Gen.EquivMongoMig']
+GEN_THEOREMS = ['Vakt.GenEquiv.gen_each_doc', 'Vakt.GenEquiv.each_failed_eq', 'Vakt.GenEquiv.translatedMongoMig_covers']
 FLOOR = {'quick': 80, 'thorough': 1500}
 ASSUMPTIONS = ['MongoDB is the in-process fake client (documents deep-copied in and out, unique _id); real index operations '
                'and BSON corner cases are behind it',
